@@ -297,5 +297,14 @@ def step (cfg : Cfg) (st : St) : Op → Out (St × String)
     let st ← dropAll cfg st
     pure (st, "end")
 
+/-- A history: the operations one after the other; the first failure ends it. -/
+def runOps (cfg : Cfg) : St → List Op → Out St
+  | st, [] => .ok st
+  | st, op :: rest =>
+    match step cfg st op with
+    | .ok (st', _) => runOps cfg st' rest
+    | .ub k w => .ub k w
+    | .fuel => .fuel
+
 end Life
 end Tickit
